@@ -1927,3 +1927,65 @@ func MemCopy() []Case {
 	}, 6)
 	return out
 }
+
+// PtrArg is the family of pointers to sub-objects passed to helper functions: a let-bound `&a[i]` / `&s.m` used for
+// several calls with writes to the pointee in between, conditional calls, two element pointers in one call.
+func PtrArg() []Case {
+	var out []Case
+	inA, outA := wg.Arr(wg.I32, 4), wg.Arr(wg.I32, 6)
+	in := func(i int) wg.N { return wg.Load(wg.RIdx(wg.RVar("inp", inA), wg.LitI(int32(i)), wg.I32)) }
+	st := func(i int, e wg.N) wg.N { return wg.Asg(wg.RIdx(wg.RVar("out", outA), wg.LitI(int32(i)), wg.I32), e) }
+	pT := wg.Ptr("function", wg.I32)
+	bump := wg.Fn("bump", []wg.N{wg.Param("p", pT)}, wg.Void, []wg.N{
+		wg.Asg(wg.RDeref(wg.Id("p", pT)), wg.Bin("+", wg.I32, wg.Load(wg.RDeref(wg.Id("p", pT))), wg.LitI(100)))})
+	swap := wg.Fn("swap", []wg.N{wg.Param("p", pT), wg.Param("q", pT)}, wg.Void, []wg.N{
+		wg.Let("t", wg.Load(wg.RDeref(wg.Id("p", pT)))),
+		wg.Asg(wg.RDeref(wg.Id("p", pT)), wg.Load(wg.RDeref(wg.Id("q", pT)))),
+		wg.Asg(wg.RDeref(wg.Id("q", pT)), wg.Bin("+", wg.I32, wg.Id("t", wg.I32), wg.LitI(1)))})
+	arr := wg.Arr(wg.I32, 4)
+	a := wg.RVar("a", arr)
+	sT := wg.StructT("P")
+	sDecl := wg.StructDecl("P", wg.Member("x", wg.I32), wg.Member("y", wg.I32))
+	idx := wg.Bin("&", wg.I32, in(3), wg.LitI(3))
+	dump := func(body []wg.N) []wg.N {
+		for i := 0; i < 4; i++ {
+			body = append(body, st(i, wg.Load(wg.RIdx(a, wg.LitI(int32(i)), wg.I32))))
+		}
+		return body
+	}
+	initA := wg.Var("a", arr, wg.Ctor(arr, in(0), in(1), in(2), wg.LitI(1)))
+	mk := func(desc string, structs []wg.N, fns []wg.N, body []wg.N) {
+		globals := []wg.N{wg.Global("inp", "storage", "r", inA, 0, 0, wg.None), wg.Global("out", "storage", "rw", outA, 0, 1, wg.None)}
+		c := Case{Family: "ptrarg", Desc: "ptrarg " + desc, Prog: wg.Program(structs, nil, globals, append(fns, wg.Entry("main", nil, body)))}
+		for _, r := range [][]int32{{4, 7, 3, 1}, {4, 7, 3, 0}, {-1, 0, 9, 2}, {5, 5, 5, 3}} {
+			c.Inputs = append(c.Inputs, [][]int32{r, {0, 0, 0, 0, 0, 0}})
+		}
+		out = append(out, c)
+	}
+	elem := func() wg.N { return wg.Addr(wg.RIdx(a, idx, wg.I32), "function") }
+	// the same let-bound element pointer used for two calls with a write to the array in between
+	mk("let-elem twice, write between", nil, []wg.N{bump}, dump([]wg.N{initA, wg.Let("p", elem()),
+		wg.CallS("bump", wg.Id("p", pT)), wg.Asg(wg.RIdx(a, wg.LitI(1), wg.I32), wg.LitI(7)), wg.CallS("bump", wg.Id("p", pT))}))
+	// first call conditional
+	mk("let-elem, first call conditional", nil, []wg.N{bump}, dump([]wg.N{initA, wg.Let("p", elem()),
+		wg.If(wg.Bin(">", wg.Bool, in(0), wg.LitI(0)), []wg.N{wg.CallS("bump", wg.Id("p", pT))}, nil),
+		wg.CAsg("+", wg.RIdx(a, idx, wg.I32), wg.LitI(5)), wg.CallS("bump", wg.Id("p", pT))}))
+	// fresh &a[i] at each call site, and write through the pointer directly between the calls
+	mk("fresh elem each call, deref write between", nil, []wg.N{bump}, dump([]wg.N{initA, wg.Let("p", elem()),
+		wg.CallS("bump", elem()), wg.Asg(wg.RDeref(wg.Id("p", pT)), wg.LitI(9)), wg.CallS("bump", elem())}))
+	// two element pointers in one call, then again swapped
+	mk("two elems one call", nil, []wg.N{swap}, dump([]wg.N{initA,
+		wg.Let("p", wg.Addr(wg.RIdx(a, wg.LitI(0), wg.I32), "function")), wg.Let("q", wg.Addr(wg.RIdx(a, wg.LitI(2), wg.I32), "function")),
+		wg.CallS("swap", wg.Id("p", pT), wg.Id("q", pT)), wg.CallS("swap", wg.Id("q", pT), wg.Id("p", pT))}))
+	// loop: the pointer is taken once outside, the pointee changes in every iteration
+	mk("let-elem in loop", nil, []wg.N{bump}, dump([]wg.N{initA, wg.Let("p", elem()),
+		wg.For(wg.Var("i", wg.I32, wg.LitI(0)), wg.Bin("<", wg.Bool, wg.Load(wg.RVar("i", wg.I32)), wg.LitI(3)), wg.Inc(wg.RVar("i", wg.I32)),
+			[]wg.N{wg.CallS("bump", wg.Id("p", pT)), wg.CAsg("*", wg.RIdx(a, idx, wg.I32), wg.LitI(2))})}))
+	// struct member pointer
+	s := wg.RVar("s", sT)
+	mk("let-member twice, write between", []wg.N{sDecl}, []wg.N{bump}, []wg.N{
+		wg.Var("s", sT, wg.Ctor(sT, in(0), in(1))), wg.Let("p", wg.Addr(wg.RMem(s, 1, "y", wg.I32), "function")),
+		wg.CallS("bump", wg.Id("p", pT)), wg.Asg(wg.RMem(s, 1, "y", wg.I32), wg.LitI(7)), wg.CallS("bump", wg.Id("p", pT)),
+		st(0, wg.Load(wg.RMem(s, 0, "x", wg.I32))), st(1, wg.Load(wg.RMem(s, 1, "y", wg.I32)))})
+	return out
+}
